@@ -29,7 +29,7 @@
 //!   {"op":"query","p":i,"seq":n,"ms":elapsed,"res":{"class":"ok","digest":d,"rows":r}|{"class":"err","kind":k}|
 //!                                     {"class":"panic","msg":m}|{"class":"hang"},
 //!    "contacted":["https","http"],"log":["https GET /wow/versions", ..]}
-//!   {"op":"tick"|"reopen"|"flip","seq":n}
+//!   {"op":"tick"|"wait"|"reopen"|"flip","seq":n}            t0/t1 of a query: ms since the start of the row (monotonic)
 //!   {"op":"download","k":i,"seq":n,"res":{"class":"ok","digest":d}|{"class":"err","kind":k},"reqs":[503,200]}
 use cascette_formats::bpsv::{BpsvDocument, BpsvType};
 use cascette_protocol::{CacheConfig, CdnClient, CdnConfig, CdnEndpoint, ClientConfig, ContentType, ProtocolError, RibbitTactClient};
@@ -43,6 +43,7 @@ use verif_harness::*;
 
 const EPS: [&str; 3] = ["https", "http", "tcp"];
 const SHORT_TTL_MS: u64 = 150;
+const MID_TTL_MS: u64 = 600; // with `wait` operations of 400 ms: a hit at 0.67 x TTL, a query at 1.33 x TTL
 const TICK_MS: u64 = 650; // > 4 x TTL
 const LONG_TTL_S: u64 = 3600;
 const SEG_PAUSE_MS: u64 = 10;
@@ -251,8 +252,9 @@ struct BpsvOpts {
     blank_after_row: Option<usize>, // an empty line after this many rows
     trailing_blank: bool,
     pad_to_512: bool, // a comment line sized so that a two-byte character straddles byte offset 512
+    straddle: &'static [usize], // comment lines sized so that a two-byte character straddles these byte offsets
 }
-const PLAIN: BpsvOpts = BpsvOpts { nl: "\n", seqn_footer: false, blank_after_seqn: false, blank_after_row: None, trailing_blank: false, pad_to_512: false };
+const PLAIN: BpsvOpts = BpsvOpts { nl: "\n", seqn_footer: false, blank_after_seqn: false, blank_after_row: None, trailing_blank: false, pad_to_512: false, straddle: &[] };
 
 fn bpsv_text(d: &Doc, o: &BpsvOpts) -> Wire {
     let mut s = String::new();
@@ -280,8 +282,22 @@ fn bpsv_text(d: &Doc, o: &BpsvOpts) -> Wire {
             prefix.push((s.len(), d.digest_prefix(seqn_seen, 0)));
         }
     }
+    let mut pending: Vec<usize> = o.straddle.to_vec();
     for (i, r) in d.rows.iter().enumerate() {
-        s.push_str(&r.join("|"));
+        let line = r.join("|");
+        if let Some(&off) = pending.first()
+            && s.len() + line.len() + o.nl.len() > off - 3
+        {
+            // "# " + filler + "é": the first byte of 'é' lands on offset off-1, the second on off
+            let need = off - 1 - s.len() - 2;
+            s.push_str("# ");
+            s.push_str(&"x".repeat(need));
+            s.push('é');
+            s.push_str(o.nl);
+            assert!(!s.is_char_boundary(off));
+            pending.remove(0);
+        }
+        s.push_str(&line);
         s.push_str(o.nl);
         if o.blank_after_row == Some(i + 1) {
             s.push_str(o.nl);
@@ -339,8 +355,9 @@ fn mime_text(d: &Doc, cls: &str, nl: &str, disp: Option<&str>, signature: bool, 
     Wire { bytes: s.into_bytes(), prefix: vec![] }
 }
 
-const SHAPES: [&str; 12] = [
-    "bpsv_nn", "bpsv", "bpsv_crlf", "bpsv_footer", "bpsv_blank", "bpsv_blank2", "mime", "mime_lf", "mime_srv", "mime_nosum", "bpsv_big", "bpsv_u512",
+const SHAPES: [&str; 16] = [
+    "bpsv_nn", "bpsv", "bpsv_crlf", "bpsv_footer", "bpsv_blank", "bpsv_blank2", "mime", "mime_lf", "mime_srv", "mime_nosum", "bpsv_utf8", "mime_utf8",
+    "mime_lf_utf8", "bpsv_big", "bpsv_u512", "bpsv_big_utf8",
 ];
 
 fn wire(shape: &str, d: &Doc, cls: &str) -> Wire {
@@ -352,19 +369,13 @@ fn wire(shape: &str, d: &Doc, cls: &str) -> Wire {
         "bpsv_blank" => bpsv_text(d, &BpsvOpts { blank_after_seqn: true, trailing_blank: true, ..PLAIN }),
         "bpsv_blank2" => bpsv_text(d, &BpsvOpts { seqn_footer: true, blank_after_row: Some(2), trailing_blank: true, ..PLAIN }),
         "bpsv_u512" => bpsv_text(d, &BpsvOpts { pad_to_512: true, trailing_blank: true, ..PLAIN }),
-        "bpsv_big" => {
-            // more than one 8 KiB read; an interior blank line in the second half
-            let mut big = d.clone();
-            let base = d.rows.clone();
-            for i in 0..70 {
-                for r in &base {
-                    let mut r = r.clone();
-                    r[0] = format!("{}{i}", r[0]);
-                    big.rows.push(r);
-                }
-            }
-            bpsv_text(&big, &BpsvOpts { blank_after_row: Some(200), trailing_blank: true, ..PLAIN })
-        }
+        "bpsv_big" => bpsv_text(&shape_doc(shape, d), &BpsvOpts { blank_after_row: Some(200), trailing_blank: true, ..PLAIN }),
+        // non-ASCII field values (2-, 3- and 4-byte characters)
+        "bpsv_utf8" => bpsv_text(&shape_doc(shape, d), &BpsvOpts { trailing_blank: true, ..PLAIN }),
+        "mime_utf8" => mime_text(&shape_doc(shape, d), cls, "\r\n", None, true, Some(true)),
+        "mime_lf_utf8" => mime_text(&shape_doc(shape, d), cls, "\n", None, true, Some(true)),
+        // long, non-ASCII, and a two-byte character across each of the first 8 KiB read-buffer boundaries
+        "bpsv_big_utf8" => bpsv_text(&shape_doc(shape, d), &BpsvOpts { trailing_blank: true, straddle: &[8192, 16384], ..PLAIN }),
         "mime" => mime_text(d, cls, "\r\n", None, true, Some(true)),
         "mime_lf" => mime_text(d, cls, "\n", None, true, Some(true)),
         "mime_srv" => mime_text(d, cls, "\r\n", Some("data"), false, Some(true)),
@@ -374,22 +385,29 @@ fn wire(shape: &str, d: &Doc, cls: &str) -> Wire {
     }
 }
 
-/// the document a shape carries (bpsv_big carries more rows than the base document)
+/// the document a shape carries: the long shapes carry more rows than the base document, the non-ASCII shapes
+/// have 2-, 3- and 4-byte characters in the values of the last STRING column of the base rows
 fn shape_doc(shape: &str, d: &Doc) -> Doc {
-    if shape == "bpsv_big" {
-        let mut big = d.clone();
+    let mut doc = d.clone();
+    if shape.ends_with("utf8") {
+        let col = d.fields.iter().rposition(|f| f.1 == "STRING").expect("a STRING column");
+        let tails = ["-é", "-한", "-😀", "-éß한😀x"];
+        for (i, r) in doc.rows.iter_mut().enumerate() {
+            r[col].push_str(tails[i % tails.len()]);
+        }
+    }
+    if shape.starts_with("bpsv_big") {
+        let reps = if shape == "bpsv_big_utf8" && d.fields.len() <= 3 { 500 } else { 70 };
         let base = d.rows.clone();
-        for i in 0..70 {
+        for i in 0..reps {
             for r in &base {
                 let mut r = r.clone();
                 r[0] = format!("{}{i}", r[0]);
-                big.rows.push(r);
+                doc.rows.push(r);
             }
         }
-        big
-    } else {
-        d.clone()
     }
+    doc
 }
 
 fn find_ci(hay: &[u8], needle: &[u8]) -> Option<usize> {
@@ -416,11 +434,13 @@ fn resp_info(w: &Wire) -> Value {
     };
     let nb512 = b.len() > 512 && (b[512] & 0xC0) == 0x80;
     let prefix: Vec<Value> = w.prefix.iter().map(|(p, d)| json!([p, d])).collect();
-    json!({"len": b.len(), "nl": nl, "mime_at": mime_at, "nb512": nb512, "prefix": prefix})
+    // cut positions that fall inside a multi-byte character
+    let mb: Vec<usize> = (1..b.len()).filter(|&p| (b[p] & 0xC0) == 0x80).collect();
+    json!({"len": b.len(), "nl": nl, "mime_at": mime_at, "nb512": nb512, "prefix": prefix, "mb": mb})
 }
 
 fn empty_resp() -> Value {
-    json!({"len": 0, "nl": [], "mime_at": 0, "nb512": false, "prefix": []})
+    json!({"len": 0, "nl": [], "mime_at": 0, "nb512": false, "prefix": [], "mb": []})
 }
 
 // --------------------------------------------------------------------------- rows
@@ -788,7 +808,12 @@ async fn run_query_row(prog: &Value, idx: usize) -> Vec<Value> {
         keep.push(e);
     }
     let dir = tempfile::Builder::new().prefix("c13-").tempdir_in(scratch()).expect("tempdir");
-    let ttl = if ttl_kind == "short" { Duration::from_millis(SHORT_TTL_MS) } else { Duration::from_secs(LONG_TTL_S) };
+    let ttl = match ttl_kind.as_str() {
+        "short" => Duration::from_millis(SHORT_TTL_MS),
+        "mid" => Duration::from_millis(MID_TTL_MS),
+        _ => Duration::from_secs(LONG_TTL_S),
+    };
+    let row_start = std::time::Instant::now();
     let cfg = ClientConfig {
         tact_https_url: format!("http://{}:{}", row.ip, ports[0]),
         tact_http_url: format!("http://{}:{}", row.ip, ports[1]),
@@ -813,11 +838,12 @@ async fn run_query_row(prog: &Value, idx: usize) -> Vec<Value> {
         }
         docs.insert(ep.to_string(), json!(v));
     }
-    let resp = if is_ok_beh(&beh1["tcp"]) {
+    let mut resp = if is_ok_beh(&beh1["tcp"]) {
         resp_info(&wire(&row.tcp_shape(&beh1["tcp"], 1), &make_doc(&cls, "tcp", 1), &cls))
     } else {
         empty_resp()
     };
+    resp["mb"] = json!([]); // only the row generator needs these positions
     evs.push(json!({"op": "new", "fam": prog["fam"], "cache": cache_kind, "ttl": ttl_kind, "cls": cls, "beh": beh1, "beh2": beh2,
                     "docs": docs, "resp": resp, "cuts": cuts, "shape": shape.clone().unwrap_or_default()}));
     let mut client = match RibbitTactClient::new(cfg.clone()) {
@@ -839,6 +865,7 @@ async fn run_query_row(prog: &Value, idx: usize) -> Vec<Value> {
                 let mark = row.log.lock().unwrap().len();
                 let c = client.clone();
                 let t0 = std::time::Instant::now();
+                ev["t0"] = json!(row_start.elapsed().as_millis() as u64);
                 let h = tokio::spawn(async move { c.query(&path).await });
                 let res = match tokio::time::timeout(Duration::from_secs(QUERY_WATCHDOG_S), h).await {
                     Ok(Ok(Ok(doc))) => json!({"class": "ok", "digest": digest_parsed(&doc), "rows": doc.rows().len()}),
@@ -857,10 +884,12 @@ async fn run_query_row(prog: &Value, idx: usize) -> Vec<Value> {
                 let log: Vec<(String, String)> = row.log.lock().unwrap()[mark..].to_vec();
                 ev["res"] = res;
                 ev["ms"] = json!(t0.elapsed().as_millis() as u64);
+                ev["t1"] = json!(row_start.elapsed().as_millis() as u64 + 1); // rounded up
                 ev["contacted"] = json!(log.iter().map(|(e, _)| e.clone()).collect::<Vec<_>>());
                 ev["log"] = json!(log.iter().map(|(_, l)| l.clone()).collect::<Vec<_>>());
             }
             "tick" => tokio::time::sleep(Duration::from_millis(TICK_MS)).await,
+            "wait" => tokio::time::sleep(Duration::from_millis(op["ms"].as_u64().unwrap())).await,
             "reopen" => match RibbitTactClient::new(cfg.clone()) {
                 Ok(c) => client = Arc::new(c),
                 Err(e) => {
@@ -1060,7 +1089,9 @@ fn random_row(rng: &mut Rng) -> Value {
         beh2.insert(ep.into(), json!(nb));
     }
     let disk = rng.chance(1, 2);
-    let short = rng.chance(1, 2);
+    let ttl_kind = *rng.pick(&["long", "long", "short", "short", "mid"]);
+    let short = ttl_kind == "short";
+    let mid = ttl_kind == "mid";
     let mut ops = vec![json!({"op": "query", "p": 1})];
     let n = 2 + rng.below(5);
     let mut last = "query";
@@ -1070,6 +1101,8 @@ fn random_row(rng: &mut Rng) -> Value {
             json!({"op": "query", "p": 1 + rng.below(2)})
         } else if c < 7 && short && last != "tick" {
             json!({"op": "tick"})
+        } else if c < 8 && mid {
+            json!({"op": "wait", "ms": 400})
         } else if c < 8 && disk && last != "reopen" {
             json!({"op": "reopen"})
         } else if c < 9 && last != "flip" {
@@ -1080,16 +1113,17 @@ fn random_row(rng: &mut Rng) -> Value {
         last = match op["op"].as_str().unwrap() {
             "query" => "query",
             "tick" => "tick",
+            "wait" => "wait",
             "reopen" => "reopen",
             _ => "flip",
         };
         ops.push(op);
     }
     ops.push(json!({"op": "query", "p": 1}));
-    let mut row = json!({"fam": "random", "cache": if disk { "disk" } else { "mem" }, "ttl": if short { "short" } else { "long" }, "cls": cls,
+    let mut row = json!({"fam": "random", "cache": if disk { "disk" } else { "mem" }, "ttl": ttl_kind, "cls": cls,
                          "beh": beh, "beh2": beh2, "ops": ops});
     if is_ok_beh(row["beh"]["tcp"].as_str().unwrap()) && rng.chance(1, 3) {
-        let shape = *rng.pick(&SHAPES[..10]);
+        let shape = *rng.pick(&SHAPES[..13]);
         let len = wire(shape, &make_doc(cls, "tcp", 1), cls).bytes.len() as u64;
         let mut cuts: Vec<u64> = (0..1 + rng.below(3)).map(|_| 1 + rng.below(len - 1)).collect();
         cuts.sort_unstable();
